@@ -14,6 +14,7 @@ func Verif_Step_tcp_arb() {
 	d, cfg, sink, src, min, m := vSetup()
 	P := V.Bytes("P", L)
 	N.BoundArb4(P)
+	V.ClockAdvance(time.Duration(V.U32("flight"))) // the reply arrives an arbitrary time after the last send
 	src.Next = append([]byte(nil), P...)
 	resp, err := d.ReceiveProbe(100 * time.Millisecond)
 	if err != nil {
@@ -32,7 +33,9 @@ func Verif_Step_tcp_arb() {
 	if L >= ihl*4+8+1 {
 		qihl = V.Concretize(int(P[ihl*4+8] & 0xf))
 	}
-	pr := sink.Pkts[V.Concretize(int(ttl-min))]
+	idx := V.Concretize(int(ttl - min))
+	pr := sink.Pkts[idx]
+	V.Assert(resp.RTT == time.Duration(V.NowNs()-sink.Times[idx]), "C05/rtt-send-to-receive-same-probe")
 	icmpForm := vGenuineICMP(P, ihl, qihl, pr, cfg.LoosenICMPSrc)
 	// a direct reply has no per-probe identifier in default mode: it may be credited to the last probe sent, never an earlier one
 	directForm := V.All(vDirect(P, ihl, pr), ttl == m)
